@@ -168,7 +168,7 @@ Theorem section_ops_allowed o st should p s w :
   let outf := output_path o p ftp in
   exists ext, trace (snd (process_section o st should p s w)) = trace w ++ ext /\ Forall (allowed o ftp outf) ext.
 Proof.
-  cbv zeta. unfold process_section. unfold mbind at 1. cbn [get_fs].
+  cbv zeta. unfold process_section, section_tail. unfold mbind at 1. cbn [get_fs].
   set (ftp := if is_nil (file_to_patch o) then guess_filepath (fs w) (map d_dest (deferred_writes st)) p o else file_to_patch o).
   set (outf := output_path o p ftp).
   match goal with |- exists ext, trace (snd (?body w)) = _ /\ _ => assert (H : TP (allowed o ftp outf) body); [|exact (H w)] end.
